@@ -69,7 +69,7 @@ CLAIMS = {
         "Decides the necessary condition for schedule independence: the only state that outlives one decoder invocation is "
         "either keyed first by the emitting thread's id or one of the frozen by-design global tables; no scalar slot is "
         "written by one invocation and read by another; no module/class-level object is mutated; a name record files its text "
-        "under the pid of the emitting thread's own pending data record, and no decoder does anything else to the name table (both taken over from C14/R4); no constructor keeps a mutable default argument; a one-entry cache kept in parser slots is right only when every input the remembered value is computed from is compared before reuse; tables proved to be pure memos are not state. Equality of per-thread "
+        "under the pid of the emitting thread's own pending data record, and no decoder does anything else to the name table (both taken over from C14/R4); no constructor keeps a mutable default argument; a one-entry cache kept in parser slots is right only when every input the remembered value is computed from is compared before reuse; tables proved to be pure memos and bookkeeping attributes nobody reads are not state; a write to what a comprehension over the whole table collected, without a test of the emitting thread's id, is reported. Equality of per-thread "
         "results across interleavings is argued from this, not checked.",
         "The by-design tables (threads_pids, pids_names, global_strings, tids_names, dyld_*) are excluded by the property's own "
         "quantifier; they are frozen in the rule with reasons.",
@@ -94,7 +94,7 @@ CLAIMS = {
         "each access is shown to be covered on every path by a membership test of the same key, a length fact, a None test, "
         "iteration over the same table, .get, a dominating store or a matching try/except. This quantifies over all "
         "histories because the facts do not depend on which records were seen. Truthiness of a key is not accepted as "
-        "membership. An index that is a conditional expression is judged per alternative. Tuple unpacking is tracked when the length of the unpacked sequence follows from how it is built (the decoder's window holds any number of records). The facade's line builders index the shared thread / process tables only under a membership test or "
+        "membership. An index that is a conditional expression is judged per alternative. Tuple unpacking is tracked when the length of the unpacked sequence follows from how it is built (the decoder's window holds any number of records; a list padded up to a length but never cut has no upper bound); what parse_vnode gives back when there is no lookup has the shape of a lookup. The facade's line builders index the shared thread / process tables only under a membership test or "
         "through .get.",
         "Enum(x) for undeclared x and .decode() of invalid text are outside the property's premise; windows are non-empty by "
         "C04 so events[0]/events[-1]/ktraces[0] are not tracked; non-constant indexes (bisect results) are C15's.",
@@ -198,7 +198,7 @@ CLAIMS = {
         "fields unconditional, optional fields defaulted) + (guard key == consumed key, each key once) - 2^31 combinations "
         "decided by 41 facts; every optional field's default is shown to be an empty value (absence stays visible). The firehose "
         "bit packing is compared with the construct declaration evaluated to bit ranges; the timeval conversion is brought to a linear "
-        "form over (sec, usec) that must be epoch + sec + usec/10**6 as an aware UTC datetime. A decoded field is stored when its raw key is present, not when the raw value is truthy (R12); that each decoded record is yielded is taken over from C03/R6.",
+        "form over (sec, usec) that must be epoch + sec + usec/10**6 as an aware UTC datetime. The type / flag registries are subscripted only under a membership test or a KeyError handler (R13). A decoded field is stored when its raw key is present, not when the raw value is truthy (R12); that each decoded record is yielded is taken over from C03/R6.",
         "Nested decomposed-message shapes are not decided at value level. The raw-key table is the "
         "one confirmed on the reviewed tree; the firehose bit layout is transcribed from libdispatch's tracepoint header.",
         "DESIGN.md §4 C16"),
